@@ -85,7 +85,14 @@ def gen_target(prng, spec, mode, remove):
 
 
 def build_target(sc):
-    ejks = {name: {tuple(k): w for k, w in rows} for name, rows in sc["target"].items()}
+    # order comes from the spec's topology LIST, never from the dict: replay files are written with sorted keys,
+    # and the scenario must mean the same thing after a JSON round trip
+    names_in_order = [n for n in netsim.names(sc["spec"]) if n in sc["target"]]
+    order = sc.get("target_order")
+    if order:
+        # the caller may write the target matrices down in any order; only EDGE_NAMES fixes the index positions
+        names_in_order = [names_in_order[i] for i in order if i < len(names_in_order)]
+    ejks = {name: {tuple(k): w for k, w in sc["target"][name]} for name in names_in_order}
     return JointExcessJointDegreeMatrices({ToolsNames.EJKS: ejks, ToolsNames.EDGE_NAMES: netsim.names(sc["spec"])})
 
 
@@ -101,14 +108,24 @@ def gen_scenario(prng, tier, index, focus):
     else:
         n = prng.randrange(12, 61 if big else 33)       # corners of >= 2 edges need room for absent target edges
     mult = prng.choice((0.5, 0.75, 1.0, 1.0, 1.5))
-    spec = netsim.gen_clean_spec(prng, n, topos, max(4, int(n * mult)))
+    if prng.random() < 0.06:
+        # high vertex labels: a network of 300-700 vertices whose motifs all live on the top 14-24 labels (the rest
+        # have joint degree zero): label-dependent behaviour (e.g. anything that distinguishes small ints) with
+        # the density - and the cost - of a small network
+        n = prng.randrange(300, 700)
+        top = prng.randrange(14, 25)
+        sub = netsim.gen_clean_spec(prng, top, topos, max(4, int(top * mult)))
+        spec = {"n": n, "topos": topos, "motifs": [{"topo": m["topo"], "verts": [v + n - top for v in m["verts"]]} for m in sub["motifs"]]}
+    else:
+        spec = netsim.gen_clean_spec(prng, n, topos, max(4, int(n * mult)))
     variant = "faults" if index % 4 == 3 else "clean"
     mode = prng.choice(("uniform", "random", "assortative", "disassortative", "spiky"))
     remove = "none" if focus == "C11" and prng.random() < 0.7 else prng.choice(("none", "absent", "zero", "mixed"))
     target, removed = gen_target(prng, spec, mode, remove)
     sc = {"variant": variant, "spec": spec, "target": target, "target_mode": mode, "pairings_removed": removed,
           "search_limit": prng.choice((None, 1, 2, 3, 5, 10, 25)), "K": prng.randrange(1, 7 if not big else 10),
-          "policy": prng.choice(({}, {}, {}, {"int": "mix", "p": 0.2}, {"int": "mix", "p": 0.4}, {"float": "lo"},
+          "target_order": prng.sample(range(len(topos)), len(topos)) if prng.random() < (0.85 if focus == "C12" else 0.5) else None,
+          "policy": prng.choice(({}, {}, {}, {"int": "mix", "p": 0.2}, {"int": "mix", "p": 0.4}, {"int": "mix", "p": 0.6}, {"float": "lo"},
                                  {"float": "hi"}, {"float": "extreme"}, {"float": "mix", "int": "mix", "p": 0.3},
                                  {"float": "mix", "p": 0.5})),
           "defaults": prng.choice(("none", "none", "construct", "run"))}
